@@ -97,13 +97,13 @@ Definition is_file_kind (k : path_kind) : bool := match k with FilePath => true 
 (* "trailing tilde and digits": ~ not last, only digits after the last ~ *)
 Definition tilde_short (short : bytes) : bool :=
   match last_index [c_tilde] short with
-  | Some t => (S t <? length short) && forallb is_digit (skipn (S t) short)
+  | Some t => (S t <? List.length short) && forallb is_digit (skipn (S t) short)
   | None => false
   end.
 
 Definition check_elem_k (k : path_kind) (elem : bytes) : bool :=
   negb (is_nil elem) &&
-  negb (count_byte c_dot elem =? length elem) &&
+  negb (count_byte c_dot elem =? List.length elem) &&
   negb (is_module_kind k && opt_is (nth_b 0 elem) c_dot) &&
   negb (opt_is (last_b elem) c_dot) &&
   forallb (char_ok k) elem &&
@@ -123,29 +123,29 @@ Definition check_elem_x (v : bytes) : bool := check_elem_k FilePath v.
 
 (* ------------------------------------------------------------------ SplitPathVersion *)
 
-Definition trailing (f : byte -> bool) (s : bytes) : nat := length (take_while f (rev_append s [])).
+Definition trailing (f : byte -> bool) (s : bytes) : nat := List.length (take_while f (rev_append s [])).
 
 Definition split_gopkg_in (p : bytes) : bytes * bytes * bool :=
-  let q := if has_suffix s_unstable p then firstn (length p - length s_unstable) p else p in
-  let i := length q - trailing is_digit q in
+  let q := if has_suffix s_unstable p then firstn (List.length p - List.length s_unstable) p else p in
+  let i := List.length q - trailing is_digit q in
   if (i <=? 1) || negb (opt_is (nth_b (i - 1) p) c_v) || negb (opt_is (nth_b (i - 2) p) c_dot)
   then (p, [], false)
   else
     let pm := skipn (i - 2) p in
-    if (length pm <=? 2) || (opt_is (nth_b 2 pm) c_0 && negb (bytes_eqb pm s_dotv0))
+    if (List.length pm <=? 2) || (opt_is (nth_b 2 pm) c_0 && negb (bytes_eqb pm s_dotv0))
     then (p, [], false)
     else (firstn (i - 2) p, pm, true).
 
 Definition split_path_version (p : bytes) : bytes * bytes * bool :=
   if has_prefix s_gopkg p then split_gopkg_in p else
   let k := trailing (fun c => is_digit c || beq c c_dot) p in
-  let i := length p - k in
+  let i := List.length p - k in
   if (i <=? 1) || (k =? 0) || negb (opt_is (nth_b (i - 1) p) c_v) || negb (opt_is (nth_b (i - 2) p) c_slash)
   then (p, [], true)
   else
     let pm := skipn (i - 2) p in
     let dot := mem_byte c_dot (skipn i p) in
-    if dot || (length pm <=? 2) || opt_is (nth_b 2 pm) c_0 || bytes_eqb pm s_slashv1
+    if dot || (List.length pm <=? 2) || opt_is (nth_b 2 pm) c_0 || bytes_eqb pm s_slashv1
     then (p, [], false)
     else (firstn (i - 2) p, pm, true).
 
@@ -174,7 +174,7 @@ Definition parse_int (v : bytes) : option (bytes * bytes) :=
 
 Definition is_ident_char (c : byte) : bool := is_letter c || is_digit c || beq c c_dash.
 Definition is_num (v : bytes) : bool := forallb is_digit v.
-Definition is_bad_num (v : bytes) : bool := is_num v && (1 <? length v) && opt_is (nth_b 0 v) c_0.
+Definition is_bad_num (v : bytes) : bool := is_num v && (1 <? List.length v) && opt_is (nth_b 0 v) c_0.
 
 Definition parse_prerelease (v : bytes) : option (bytes * bytes) :=
   match v with
@@ -256,7 +256,7 @@ Definition semver_canonical (v : bytes) : bytes :=
   match parse v with
   | None => []
   | Some p =>
-      if negb (is_nil (p_build p)) then firstn (length v - length (p_build p)) v
+      if negb (is_nil (p_build p)) then firstn (List.length v - List.length (p_build p)) v
       else if negb (is_nil (p_short p)) then v ++ p_short p
       else v
   end.
@@ -274,8 +274,8 @@ Fixpoint bytes_lt (x y : bytes) : bool :=
 
 Definition compare_int (x y : bytes) : comparison :=
   if bytes_eqb x y then Eq
-  else if length x <? length y then Lt
-  else if length y <? length x then Gt
+  else if List.length x <? List.length y then Lt
+  else if List.length y <? List.length x then Gt
   else if bytes_lt x y then Lt else Gt.
 
 Fixpoint compare_idents (xs ys : list bytes) : comparison :=
@@ -288,8 +288,8 @@ Fixpoint compare_idents (xs ys : list bytes) : comparison :=
         let ix := is_num dx in
         let iy := is_num dy in
         if negb (Bool.eqb ix iy) then (if ix then Lt else Gt)
-        else if ix && (length dx <? length dy) then Lt
-        else if ix && (length dy <? length dx) then Gt
+        else if ix && (List.length dx <? List.length dy) then Lt
+        else if ix && (List.length dy <? List.length dx) then Gt
         else if bytes_lt dx dy then Lt else Gt
   end.
 
@@ -325,7 +325,7 @@ Definition semver_lt_x (v w : bytes) : bool := match semver_compare v w with Lt 
 
 Definition check_path_major (v pm : bytes) : bool :=
   let pm := if has_prefix s_dotv pm && has_suffix s_unstable pm
-            then firstn (length pm - length s_unstable) pm else pm in
+            then firstn (List.length pm - List.length s_unstable) pm else pm in
   if has_prefix s_v000 v && bytes_eqb pm s_dotv1 then true else
   let m := semver_major v in
   match pm with
